@@ -865,6 +865,19 @@ def convert_specification(_s, _l, tokens):
     return merge_dicts(tokens)
 
 
+def KeywordWords(words):
+    """A keyword made of more than one word, as "OCTET STRING". Any
+    white space (and comments) may separate the words. The token is
+    the words joined with a single space.
+
+    """
+
+    pattern = r'\s+'.join([re.escape(word) for word in words.split(' ')])
+
+    return Regex(r'\b' + pattern + r'\b(?![-\w])').setParseAction(
+        lambda _s, _l, _tokens: words)
+
+
 def create_grammar():
     """Return the ASN.1 grammar as Pyparsing objects.
 
@@ -884,8 +897,8 @@ def create_grammar():
     SIZE = Keyword('SIZE').setName('SIZE')
     INTEGER = Keyword('INTEGER').setName('INTEGER')
     REAL = Keyword('REAL').setName('REAL')
-    BIT_STRING = Keyword('BIT STRING').setName('BIT STRING')
-    OCTET_STRING = Keyword('OCTET STRING').setName('OCTET STRING')
+    BIT_STRING = KeywordWords('BIT STRING').setName('BIT STRING')
+    OCTET_STRING = KeywordWords('OCTET STRING').setName('OCTET STRING')
     DEFAULT = Keyword('DEFAULT').setName('DEFAULT')
     IMPORTS = Keyword('IMPORTS').setName('IMPORTS')
     EXPORTS = Keyword('EXPORTS').setName('EXPORTS')
@@ -894,26 +907,26 @@ def create_grammar():
     ENCODED_BY = Keyword('ENCODED_BY').setName('ENCODED_BY')
     IMPLICIT = Keyword('IMPLICIT').setName('IMPLICIT')
     EXPLICIT = Keyword('EXPLICIT').setName('EXPLICIT')
-    OBJECT_IDENTIFIER = Keyword('OBJECT IDENTIFIER').setName('OBJECT IDENTIFIER')
+    OBJECT_IDENTIFIER = KeywordWords('OBJECT IDENTIFIER').setName('OBJECT IDENTIFIER')
     UNIVERSAL = Keyword('UNIVERSAL').setName('UNIVERSAL')
     APPLICATION = Keyword('APPLICATION').setName('APPLICATION')
     PRIVATE = Keyword('PRIVATE').setName('PRIVATE')
     SET = Keyword('SET').setName('SET')
-    ANY_DEFINED_BY = Keyword('ANY DEFINED BY').setName('ANY DEFINED BY')
-    EXTENSIBILITY_IMPLIED = Keyword('EXTENSIBILITY IMPLIED').setName(
+    ANY_DEFINED_BY = KeywordWords('ANY DEFINED BY').setName('ANY DEFINED BY')
+    EXTENSIBILITY_IMPLIED = KeywordWords('EXTENSIBILITY IMPLIED').setName(
         'EXTENSIBILITY IMPLIED')
     BOOLEAN = Keyword('BOOLEAN').setName('BOOLEAN')
     TRUE = Keyword('TRUE').setName('TRUE')
     FALSE = Keyword('FALSE').setName('FALSE')
     CLASS = Keyword('CLASS').setName('CLASS')
-    WITH_SYNTAX = Keyword('WITH SYNTAX').setName('WITH SYNTAX')
+    WITH_SYNTAX = KeywordWords('WITH SYNTAX').setName('WITH SYNTAX')
     UNIQUE = Keyword('UNIQUE').setName('UNIQUE')
     NULL = Keyword('NULL').setName('NULL')
-    WITH_COMPONENT = Keyword('WITH COMPONENT').setName('WITH COMPONENT')
-    WITH_COMPONENTS = Keyword('WITH COMPONENTS').setName('WITH COMPONENTS')
-    WITH_SUCCESSORS = Keyword('WITH SUCCESSORS').setName('WITH SUCCESSORS')
-    WITH_DESCENDANTS = Keyword('WITH DESCENDANTS').setName('WITH DESCENDANTS')
-    COMPONENTS_OF = Keyword('COMPONENTS OF').setName('COMPONENTS OF')
+    WITH_COMPONENT = KeywordWords('WITH COMPONENT').setName('WITH COMPONENT')
+    WITH_COMPONENTS = KeywordWords('WITH COMPONENTS').setName('WITH COMPONENTS')
+    WITH_SUCCESSORS = KeywordWords('WITH SUCCESSORS').setName('WITH SUCCESSORS')
+    WITH_DESCENDANTS = KeywordWords('WITH DESCENDANTS').setName('WITH DESCENDANTS')
+    COMPONENTS_OF = KeywordWords('COMPONENTS OF').setName('COMPONENTS OF')
     PRESENT = Keyword('PRESENT').setName('PRESENT')
     ABSENT = Keyword('ABSENT').setName('ABSENT')
     ALL = Keyword('ALL').setName('ALL')
@@ -922,7 +935,7 @@ def create_grammar():
     MAX = Keyword('MAX').setName('MAX')
     INCLUDES = Keyword('INCLUDES').setName('INCLUDES')
     PATTERN = Keyword('PATTERN').setName('PATTERN')
-    CONSTRAINED_BY = Keyword('CONSTRAINED BY').setName('CONSTRAINED BY')
+    CONSTRAINED_BY = KeywordWords('CONSTRAINED BY').setName('CONSTRAINED BY')
     UNION = Keyword('UNION').setName('UNION')
     INTERSECTION = Keyword('INTERSECTION').setName('INTERSECTION')
     PLUS_INFINITY = Keyword('PLUS-INFINITY').setName('PLUS-INFINITY')
@@ -942,7 +955,7 @@ def create_grammar():
     UTF8String = Keyword('UTF8String').setName('UTF8String')
     VideotexString = Keyword('VideotexString').setName('VideotexString')
     VisibleString = Keyword('VisibleString').setName('VisibleString')
-    CHARACTER_STRING = Keyword('CHARACTER STRING').setName('CHARACTER STRING')
+    CHARACTER_STRING = KeywordWords('CHARACTER STRING').setName('CHARACTER STRING')
 
     # Various literals.
     word = Word(printables, excludeChars=',(){}[].:=;"|').setName('word')
